@@ -169,6 +169,10 @@ def _array(np, rnd, info, coords, enc, layout):
         arr = np.stack(chans).astype(np.uint8)
     elif dt.kind == "f":
         arr = g.normal(size=shape).astype(dt)
+        if arr.size and rnd.random() < 0.3:     # raw storage must preserve every bit pattern
+            flat = arr.reshape(-1)
+            for special in (np.nan, np.inf, -np.inf, -0.0, 1e-45):
+                flat[rnd.randrange(flat.size)] = special
     elif enc == "compressed_segmentation":
         labs = g.integers(0, np.iinfo(dt).max, size=rnd.choice([1, 2, 5, 40]), dtype=dt,
                           endpoint=True)
@@ -388,8 +392,8 @@ def run_case(case):
                                   f"{err.max()} mean {err.mean():.2f}"})
                         break
                 else:
-                    same = np.array_equal(got, want, equal_nan=True) if want.dtype.kind == "f" \
-                        else np.array_equal(got, want)
+                    same = (got.tobytes() == np.ascontiguousarray(want).tobytes()) \
+                        if want.dtype.kind == "f" else np.array_equal(got, want)
                     if not same:
                         v.append({"kind": "read-back-differs",
                                   "detail": f"{ctx}: {which} handle, {key} {coords}: "
